@@ -56,6 +56,8 @@ def rule_link_stamp(ctx):
             continue
         if "strong::AtomicRc" not in (b.j.get("impl_self") or ""):
             continue
+        if name in prog.auto_inline():
+            continue      # a helper a refactoring split off: read inlined into the methods that call it, with their arguments
         for p in own_paths(ctx, name):
             if p.exit[0] == "diverge":
                 continue
